@@ -32,7 +32,9 @@ DataSets06 == {<<[n |-> "t", v |-> S("T")], [n |-> "show", v |-> B(sh)], [n |-> 
                  sh \in BOOLEAN, it \in {<<>>, <<I(1), I(2)>>}}
 Tree06(lay, pagebody, useRef) == [n \in {"layouts/main", "home"} |->
                                     IF n = "home" THEN Tpl(useRef, <<H("ignored")>> \o pagebody) ELSE Tpl(NoUse, lay)]
-Good06 == {[tree |-> Tree06(LayA, pb, u), page |-> "home", d |-> d, tags |-> <<"c06", "A">>] :
+Good06 == {[tree |-> Tree06(<<H("<plain>"), P(Var("t"))>>, <<H("only text")>>, u), page |-> "home", d |-> d, tags |-> <<"c06", "no-reserves">>] :
+             u \in {Ref("layouts/main"), Alias("main")}, d \in DataSets06}      \* a layout without reserves, a page without inserts
+          \cup {[tree |-> Tree06(LayA, pb, u), page |-> "home", d |-> d, tags |-> <<"c06", "A">>] :
              pb \in PagesA, u \in {Ref("layouts/main"), Alias("main")}, d \in DataSets06}
           \cup {[tree |-> Tree06(LayB, pb, u), page |-> "home", d |-> d, tags |-> <<"c06", "B">>] :
              pb \in PagesB, u \in {Ref("layouts/main"), Alias("main")}, d \in DataSets06}
@@ -50,6 +52,10 @@ Bad06 == {[tree |-> Tree06(LayA, <<InsertE("title", StrL("x"), 1), InsertE("nope
                          [] n = "layouts/main" -> Tpl(Alias("base"), LayA)
                          [] n = "layouts/base" -> Tpl(NoUse, <<H("base"), Reserve("title", 1), Reserve("content", 1)>>)],
            page |-> "home", d |-> D0, tags |-> <<"c06", "layout-uses-layout">>]}
+         \* a layout without any reserve: every insert of the page names no reserve
+         \cup {[tree |-> Tree06(<<H("<plain>"), P(Var("t"))>>, pb, u), page |-> "home", d |-> D0, tags |-> <<"c06", "undefined-insert", "no-reserves">>] :
+                 u \in {Ref("layouts/main"), Alias("main")},
+                 pb \in {<<InsertE("title", StrL("x"), 1)>>, <<InsertB("content", <<H("y")>>, 1)>>, <<InsertE("a", StrL("x"), 1), InsertB("b", <<H("y")>>, 1)>>}}
          \* the layout's @use sits in a branch that is not taken, in a loop that runs zero times, after text, in the taken branch
          \cup {[tree |-> [n \in {"layouts/main", "layouts/base", "home"} |->
                            CASE n = "home" -> Tpl(Alias("main"), <<InsertE("title", StrL("x"), 1)>>)
@@ -109,6 +115,9 @@ Pages07 == {<<H("A:"), u1, H(" B:"), u2>> : u1 \in Uses, u2 \in Uses}
       \cup {<<If(<<Br(Var("yes"), <<u>>)>>, <<H("no")>>, 1), If(<<Br(IntL(0), <<H("no")>>)>>, <<u>>, 1)>> : u \in Uses}
       \cup {<<Assign("name", StrL("outer"), 1), u, H("="), P(Var("name"))>> : u \in Uses}
       \cup Leak07
+      \* white space between a use and the next {{ }} or directive is text of the page like any other (C05)
+      \cup {<<H("["), u, H(" "), P(Var("who")), H("]")>> : u \in Uses}
+      \cup {<<u, H("\n  "), If(<<Br(Var("yes"), <<H("y")>>)>>, NoElse, 1), H(" "), u>> : u \in Uses}
 \* every argument is evaluated at the place of use: an argument never sees its sibling arguments, whatever their order
 TwoUses == {Comp(Alias("two"), <<Arg(k1, StrL("A")), Arg(k2, Bin("+", Var(k1), StrL("!"))), Arg(k3, Var(k2))>>, <<>>, 1) :
               k1 \in {"a", "b", "c"}, k2 \in {"a", "b", "c"}, k3 \in {"a", "b", "c"}}
@@ -139,6 +148,8 @@ Esc10 == {[tree |-> [n \in DOMAIN Comps07 \cup {"home", "layouts/main"} |->
 
 (* ---------- C07 / C04: an argument named like a visible variable of another type is bound or refused, never dropped ---------- *)
 PolicyShadow == "shadow"
+SepLines == "\n    "
+SepComment == "\n  {{-- between --}}\n  "
 OuterVals == {IntL(7), BoolL(TRUE), BoolL(FALSE), Lit(F(5, 1), "2.5", "float"), ArrL(<<IntL(1)>>)}
 Data07c == Data07 \o <<[n |-> "a", v |-> I(5)], [n |-> "name", v |-> B(TRUE)]>>
 Collide07 ==
@@ -158,10 +169,26 @@ Collide07 ==
                       [] n = "layouts/main" -> Tpl(NoUse, LayA) [] OTHER -> Comps07[n]],
          page |-> "home", d |-> Data07, tags |-> <<"c07", "collide", "in-insert">>]}
 
+(* ---------- C04: names bound by component arguments vanish when the component ends ---------- *)
+ArgUses == {Comp(Alias("plain"), <<Arg("name", StrL("Ann"))>>, <<>>, 1), Comp(Alias("plain"), <<Arg("name", IntL(5))>>, <<>>, 1),
+            Comp(Alias("two"), <<Arg("a", StrL("A")), Arg("b", IntL(2)), Arg("c", Var("who"))>>, <<>>, 1),
+            Comp(Alias("named"), <<Arg("n", IntL(1)), Arg("big", BoolL(TRUE))>>, <<Sl("head", <<P(Var("n"))>>)>>, 1)}
+ArgNames(u) == {u.args[i].key : i \in 1..Len(u.args)}
+Vanish04 == \* the argument name is unknown after the use (reading it is an error) ...
+            UNION {{<<u, H("="), P(Var(k))>> : k \in ArgNames(u)} : u \in ArgUses}
+            \* ... and an outer variable of that name (assigned, or from the data map) keeps its value
+            \cup UNION {{<<Assign(k, StrL("outer"), 1), u, H("="), P(Var(k))>> : k \in ArgNames(u)} : u \in {x \in ArgUses : \A i \in 1..Len(x.args) : x.args[i].ex.k = "lit" => x.args[i].ex.c = "str"}}
+            \* the same name with values of two types in two uses: each use has its own scope
+            \cup {<<u1, H(","), u2>> : u1 \in ArgUses, u2 \in ArgUses}
+            \cup {<<Each("x", Var("xs"), <<u, H(";")>>, NoElse, 1), Assign("name", BoolL(TRUE), 1), P(Var("name"))>> : u \in ArgUses}
+Good04 == {[tree |-> Tree07(pb), page |-> "home", d |-> Data07, tags |-> <<"c04", "component-arguments">>] : pb \in Vanish04}
+
 Cases == CASE Family = "c06" -> Good06 \cup Bad06
+           [] Family = "c04comp" -> Good04
            [] Family = "c07collide" -> Collide07
            [] Family = "c10tree" -> Esc10
            [] Family = "c07" -> Good07 \cup InLayout07 \cup Bad07
+           [] Family \in {"c07lines", "c07comment"} -> {c \in Good07 \cup InLayout07 : \E n \in DOMAIN c.tree : Collect(c.tree[n].body, "comp") # <<>>}
 
 (* ------------------------------ running a case ------------------------------ *)
 Faulty(t) == {n \in DOMAIN t : ~LinkFile(t, n).ok}
